@@ -24,7 +24,8 @@
                      every occupation number and every power, no bound). *)
 Require Import List ZArith QArith Bool.
 Require Import PV.NOF.Gauss PV.NOF.Coeff PV.NOF.Fock PV.NOF.FockLemmas PV.NOF.LinComb PV.NOF.Model
-  PV.NOF.NofProof PV.NOF.NofProof2 PV.NOF.C08Lemmas.
+  PV.NOF.NofProof PV.NOF.NofProof2 PV.NOF.C08Lemmas PV.NOF.SolveScalar PV.NOF.DaggerMul PV.NOF.FromExpr
+  PV.NOF.FromExprProof PV.NOF.PowNeg PV.NOF.C08Lemmas2.
 Import ListNotations.
 Local Open Scope Z_scope.
 
@@ -127,3 +128,57 @@ Theorem C08_distr_r : forall ks x y z,
 Proof. exact c08_distr_r. Qed.
 Print Assumptions C08_distr_r.
 
+
+(** the adjoint reverses products: (x*y)† and y† * x† have the same matrix elements between all
+    physical Fock states (boson occupations >= 0, spin/fermion occupations in {0,1}) *)
+Theorem C08_dagger_mul : forall ks x y n m,
+  sig_ok ks = true -> wf_nof ks x -> wf_nof ks y -> phys ks n -> phys ks m ->
+  geq (melt ks (adj (mul ks x y)) n m) (melt ks (mul ks (adj y) (adj x)) n m).
+Proof. exact dagger_mul_correct. Qed.
+Print Assumptions C08_dagger_mul.
+Example C08_dagger_mul_nonvacuous :
+  phys ex_ks [4; -2; 1; 0; 0] /\ phys ex_ks ex_n /\
+  ~ geq (melt ex_ks (adj (mul ex_ks ex_x ex_y)) [4; -2; 1; 0; 0] ex_n) g0.
+Proof. exact c08_ex_dagger_mul. Qed.
+
+(** conversion to number-ordered form: from_expr (model PV.NOF.FromExpr, sums, products, non-negative
+    integer powers, Dagger, scalars, number operators, generators of the four kinds) denotes the same
+    operator as the expression itself; [eden ks e] is the direct meaning of e built from the
+    elementary Fock-space actions (PV.NOF.FromExpr.eden_f) *)
+Theorem C08_from_expr : forall ks e x,
+  sig_ok ks = true -> from_expr ks e = Ok x ->
+  wf_nof ks x /\ forall n, bok ks n -> lc_eq (den ks x n) (eden ks e n).
+Proof. exact from_expr_correct. Qed.
+Print Assumptions C08_from_expr.
+Example C08_from_expr_nonvacuous :
+  exists x, from_expr ex_ks ex_e = Ok x /\ ~ lc_eq (den ex_ks x [3; -2; 1; 1; 1]) [].
+Proof. exact c08_ex_from_expr. Qed.
+
+(** conversion back: as_expr x denotes the same operator as x (every state, no well-formedness
+    needed), for coefficients without reciprocals ([cpoly_nof]: the expression AST has no division) *)
+Theorem C08_as_expr : forall ks x n,
+  cpoly_nof x -> lc_eq (eden ks (as_expr x) n) (den ks x n).
+Proof. exact as_expr_correct. Qed.
+Print Assumptions C08_as_expr.
+
+(** round trip: from_expr (as_expr x) never raises and denotes the same operator as x *)
+Theorem C08_roundtrip : forall ks x,
+  sig_ok ks = true -> wf_nof ks x -> cpoly_nof x ->
+  exists x', from_expr ks (as_expr x) = Ok x' /\ wf_nof ks x' /\
+             forall n, bok ks n -> lc_eq (den ks x' n) (den ks x n).
+Proof. exact roundtrip_correct. Qed.
+Print Assumptions C08_roundtrip.
+Example C08_roundtrip_nonvacuous :
+  wf_nof ex_ks ex_x /\ cpoly_nof ex_x /\ ~ lc_eq (den ex_ks ex_x [3; -2; 1; 1; 1]) [].
+Proof. exact c08_ex_roundtrip. Qed.
+
+(** negative integer powers: the code supports them only for particle-conserving forms (it raises
+    the coefficient to the power); for a number-only form f(N) the result is the inverse of the
+    positive power on every state where f does not vanish.  Other forms: ValueError / outside the
+    property. *)
+Theorem C08_pow_neg : forall ks f e n,
+  e < 0 -> ~ geq (cval f n) g0 ->
+  exists y, pow ks (hnof ks f) e = Ok y /\
+            lc_eq (lc_bind (lc_pow (den ks (hnof ks f)) (Z.abs_nat e) n) (den ks y)) [(g1, n)].
+Proof. exact pow_neg_correct. Qed.
+Print Assumptions C08_pow_neg.
